@@ -23,6 +23,13 @@ fn local_dt(w: i64) -> TemporalResult<PlainDateTime> {
 fn dis(a: &Value) -> Disambiguation { Disambiguation::from_str(js::opt_s(a, "dis").unwrap_or("compatible")).expect("dis") }
 fn offopt(a: &Value) -> OffsetDisambiguation { OffsetDisambiguation::from_str(js::s(a, "offopt")).expect("offopt") }
 fn zdt(z: &Zone, t: i64) -> TemporalResult<ZonedDateTime> { ZonedDateTime::try_new(abs_ns(t), iso(), time_zone_for(z, false)) }
+/// the other operand of until / since: in the receiver's zone, or (arg "oz") at the same instant in a fixed-offset zone
+fn other_zdt(z: &Zone, a: &Value) -> TemporalResult<ZonedDateTime> {
+    match js::opt_s(a, "oz") {
+        Some(oz) => ZonedDateTime::try_new(abs_ns(js::i(a, "other")), iso(), TimeZone::UtcOffset(UtcOffset::from_str(oz)?)),
+        None => zdt(z, js::i(a, "other")),
+    }
+}
 fn offset_string(o: i64) -> String {
     let s = if o < 0 { '-' } else { '+' }; let a = o.abs();
     if a % 60 == 0 { format!("{}{:02}:{:02}", s, a / 3600, (a / 60) % 60) } else { format!("{}{:02}:{:02}:{:02}", s, a / 3600, (a / 60) % 60, a % 60) }
@@ -75,6 +82,32 @@ pub fn exec(op: &str, a: &Value) -> Option<Value> {
             json!({"t": rel_of(*ns), "w": int(w), "day": int(dday), "sod": int((t.hour() as i64 * 60 + t.minute() as i64) * 60 + t.second() as i64), "off": int(*off as i64 / 1_000_000_000),
                    "ti": rel_of(*ti), "cmp": [int(cmp[0]), int(cmp[1]), int(cmp[2])]})
         }),
+        // toString with smallestUnit minute / second and a rounding mode, of the zoned date-time or of the instant shown in the zone:
+        // the text is read back as (wall-clock reading, printed offset)
+        "Zoned.text" => run(|| {
+            let ns = (js::i(a, "t") as i128 + BASE_SEC as i128) * 1_000_000_000 + js::i(a, "fd") as i128 * 100_000_000;
+            let o = ToStringRoundingOptions { precision: temporal_rs::parsers::Precision::Auto, smallest_unit: Some(if js::i(a, "unit") == 60 { Unit::Minute } else { Unit::Second }),
+                                              rounding_mode: Some(RoundingMode::from_str(js::s(a, "mode"))?) };
+            let tz = time_zone_for(&z, false);
+            if js::s(a, "via") == "instant" { Instant::try_new(ns)?.to_ixdtf_string_with_provider(Some(&tz), o, &p) }
+            else { ZonedDateTime::try_new(ns, iso(), tz)?.to_ixdtf_string_with_provider(DisplayOffset::Auto, DisplayTimeZone::Auto, DisplayCalendar::Auto, o, &p) }
+        }, |s| {
+            let body = s.split('[').next().unwrap_or("");
+            let num = |x: &str| x.parse::<i64>().ok();
+            let parsed = (|| {
+                if body.len() < 22 || !body.is_ascii() { return None; }
+                let (dt, off) = body.split_at(body.len() - 6);
+                let sign = match &off[0..1] { "+" => 1, "-" => -1, _ => return None };
+                let o = sign * (num(&off[1..3])? * 3600 + num(&off[4..6])? * 60);
+                let (date, time) = dt.split_once('T')?;
+                let mut dp = date.rsplitn(3, '-'); let d = num(dp.next()?)?; let m = num(dp.next()?)?; let y = num(dp.next()?)?;
+                let tp: Vec<&str> = time.split(':').collect();
+                let sec = if tp.len() > 2 { num(tp[2])? } else { 0 };
+                let w = crate::gen::days_from_civil(y, m, d) * 86_400 + (num(tp[0])? * 60 + num(tp[1])?) * 60 + sec - BASE_SEC;
+                Some(json!({"w": int(w), "off": int(o)}))
+            })();
+            parsed.unwrap_or_else(|| json!({"unreadable": s}))
+        }),
         // PlainDate.toZonedDateTime without a time (start of day) or with the time 00:00 (wall-clock midnight, compatible)
         "Zoned.fromDate" => run(|| { let f = fields_of(js::i(a, "day") * 86_400, 0);
             let d = PlainDate::try_new(f.0, f.1, f.2, iso())?;
@@ -117,7 +150,7 @@ pub fn exec(op: &str, a: &Value) -> Option<Value> {
         "Zoned.hoursInDay" => run(|| zdt(&z, js::i(a, "t"))?.hours_in_day_with_provider(&p), |h| json!(*h)),
         "Zoned.add" => run(|| zdt(&z, js::i(a, "t"))?.add_with_provider(&arg_duration(&a["dur"])?, arg_ovf(a), &p), |x| rel_of(x.epoch_nanoseconds().as_i128())),
         "Zoned.subtract" => run(|| zdt(&z, js::i(a, "t"))?.subtract_with_provider(&arg_duration(&a["dur"])?, arg_ovf(a), &p), |x| rel_of(x.epoch_nanoseconds().as_i128())),
-        "Zoned.until" => run(|| zdt(&z, js::i(a, "t"))?.until_with_provider(&zdt(&z, js::i(a, "other"))?, arg_settings(&a["st"])?, &p), p_duration),
+        "Zoned.until" => run(|| zdt(&z, js::i(a, "t"))?.until_with_provider(&other_zdt(&z, a)?, arg_settings(&a["st"])?, &p), p_duration),
         // Duration round / total / compare relative to a zoned date-time of the synthetic zone
         "ZDur.round" => run(|| { let rel = temporal_rs::options::RelativeTo::ZonedDateTime(zdt(&z, js::i(a, "t"))?);
             arg_duration(&a["recv"])?.round_with_provider(arg_rounding(&a["st"])?, Some(rel), &p) }, p_duration),
@@ -125,7 +158,7 @@ pub fn exec(op: &str, a: &Value) -> Option<Value> {
             arg_duration(&a["recv"])?.total_with_provider(arg_unit(js::s(a, "unit")), Some(rel), &p) }, |t| p_f64(t.as_inner())),
         "ZDur.compare" => run(|| { let rel = temporal_rs::options::RelativeTo::ZonedDateTime(zdt(&z, js::i(a, "t"))?);
             arg_duration(&a["recv"])?.compare_with_provider(&arg_duration(&a["other"])?, Some(rel), &p) }, |o| p_ord(*o)),
-        "Zoned.since" => run(|| zdt(&z, js::i(a, "t"))?.since_with_provider(&zdt(&z, js::i(a, "other"))?, arg_settings(&a["st"])?, &p), p_duration),
+        "Zoned.since" => run(|| zdt(&z, js::i(a, "t"))?.since_with_provider(&other_zdt(&z, a)?, arg_settings(&a["st"])?, &p), p_duration),
         _ => return None,
     })
 }
